@@ -536,6 +536,12 @@ impl Database {
                     loop {
                         let row_key = cursor.key()?;
                         let row_data = cursor.value()?;
+                        if crate::database::dml::mvcc_helpers::is_tombstone(row_data) {
+                            if !cursor.advance()? {
+                                break;
+                            }
+                            continue;
+                        }
                         let user_data = crate::database::dml::mvcc_helpers::get_user_data(row_data);
 
                         let row_id = u64::from_be_bytes(
